@@ -57,6 +57,9 @@ AUDITED = {
     ("hyeong::app::check::print_un_opt_codes", "Overflow(Sub):PHI(K0|cmp::max(PHI(K0|LOOPVAR),String::len(ToString::to_string(ELE...,String::len(ToString::to_string(ELEM<[T]::iter(P3)>.0))"): WIDTH,
     ("hyeong::app::check::print_un_opt_codes", "Overflow(Sub):PHI(K0|cmp::max(PHI(K0|LOOPVAR),(String::len(ToString::to_string(Un...,String::len(ToString::to_string(UnOptCode::get_location(ELEM<[T]::i..."): WIDTH,
     ("hyeong::app::check::print_un_opt_codes", "Overflow(Sub):(PHI(K0|cmp::max(PHI(K0|LOOPVAR),(String::len(ToString::to_string(U...,String::len(ToString::to_string(UnOptCode::get_location(ELEM<[T]::i..."): WIDTH,
+    # the same padding written with iterator folds (max over the same collection the subtraction's right side ranges over)
+    ("hyeong::app::check::print_un_opt_codes", "Overflow(Sub):Iterator::fold(Iterator::map([T]::iter(P3),CLOSURE),K0,FN:cmp::max),String::len(ToString::to_string(ELEM<[T]::iter(P3)>.0))"): WIDTH,
+    ("hyeong::app::check::print_un_opt_codes", "Overflow(Sub):Iterator::fold(Iterator::map([T]::iter(P3),CLOSURE),K0,FN:cmp::max),(String::len(ToString::to_string(UnOptCode::get_location(ELEM<[T]::..."): WIDTH,
     ("hyeong::app::check::print_un_opt_codes", "BoundsCheck:PtrMetadata(CONST:COMMANDS),KIND"): "a parsed command's kind is 0..5: a start syllable is accepted only if its end syllable occurs later, so kinds 6..8 never reach a finished command (C04.GROUP/DEFS)",
     ("hyeong::app::check::run", "unwrap(Option):Option::as_ref(P2.input)"): INPUT,
     ("hyeong::app::run::run", "unwrap(Option):Option::as_ref(P3.input)"): INPUT,
@@ -68,6 +71,7 @@ AUDITED = {
     ("hyeong::core::execute::pop_stack_wrap", "unwrap(Result):Write::flush(P3)"): FLUSHX,
     ("hyeong::core::execute::pop_stack_wrap", "terminate:exit(K0)"): "program-requested exit, status 0",
     ("hyeong::core::execute::pop_stack_wrap", "terminate:exit(K1)"): "program-requested exit, status 1",
+    ("hyeong::core::execute::pop_stack_wrap", "terminate:exit(PHI(K0|K1))"): "program-requested exit, status 0 or 1 chosen by the stack index (C01.POP exit table decides which)",
     ("hyeong::core::optimize::optimize", "index:Vec<core::code::OptCode>[std::ops::RangeFrom<usize>]:VEC[RangeFrom::RangeFrom{PHI(ELEM<ENUMERATE([T]::iter(VEC))>.0|Vec::len...]"): "slice start is the vector length or an enumerate index, both <= len",
     ("hyeong::core::parse::parse", "Overflow(Sub):(SOME(str::find(K'형항핫흣흡흑혀하흐',ELEM<ENUMERATE(CHARS(P1))>.1)) Div K3),K6"): "t - 6 only after t >= 6 (C04.TOTAL verifies the guard)",
     ("hyeong::core::parse::parse", "BoundsCheck:K3,((SOME(str::find(K'형항핫흣흡흑혀하흐',ELEM<ENUMERATE(CHARS(P1))>.1)) Div K3..."): "6 <= t <= 8 (C04.TOTAL/TABLES)",
@@ -155,7 +159,7 @@ def rule_exit(ctx, R):
             n += 1
             R.analyse(name)
             arg = s["ops"][0]
-            R.check(arg in ("K0", "K1") and "exit" in s["key"], "exit:const:%s:%s" % (name, s["key"]), "process termination in %s uses exit with a constant status 0 or 1 (%s)" % (name, s["key"]), s["where"])
+            R.check(arg in ("K0", "K1", "PHI(K0|K1)") and "exit" in s["key"], "exit:const:%s:%s" % (name, s["key"]), "process termination in %s uses exit with a constant status 0 or 1 (%s)" % (name, s["key"]), s["where"])
             if name in reach:
                 R.check(name in ("hyeong::core::execute::pop_stack_wrap", "hyeong::util::io::print_error", "hyeong::util::io::print_error_str"), "exit:reachable:%s" % name, "exits reachable from run/check are the program-requested exits and the diagnostic exit only", s["where"])
     R.floor("exit_sites", n, 8, "process::exit sites in the crate")
